@@ -190,7 +190,7 @@ def bmm(op, input, other):
         return qfallback(op, input, other)
     # Cast data to float32 and do the operation
     out_data = op(input._data.to(torch.float32), other._data.to(torch.float32))
-    out_scale = (input._scale * other._scale).to(torch.float32)
+    out_scale = input._scale.to(torch.float32) * other._scale.to(torch.float32)
     return (out_data * out_scale).to(input._scale.dtype)
 
 
@@ -218,7 +218,7 @@ def mm(op, input, other):
             out_data = torch._int_mm(input._data, other._data)
             # We must evaluate the output as float32 because the multiplication
             # of the int32 data by the scales might overflow
-            fp32_output = (input._scale * other._scale).to(torch.float32) * out_data
+            fp32_output = input._scale.to(torch.float32) * other._scale.to(torch.float32) * out_data
             return fp32_output.to(input.dtype)
     return qfallback(op, input, other)
 
